@@ -104,6 +104,9 @@ class SymDict(Model):
         t = key.term if isinstance(key, SName) else None
         if t is None:
             raise Unsupported("symbol dictionary key %r" % (key,))
+        if it.pure_depth:
+            # element closure of a generator over the declared names: the key is declared by construction
+            return SExpr(self.symf(t), ('Symbol',))
         if not it.ctx.branch(self.decl(t), 'dict-key'):
             raise PyRaise(ExcVal('KeyError', (key,), {'KeyError', 'LookupError', 'Exception', 'BaseException'}))
         return SExpr(self.symf(t), ('Symbol',))
